@@ -102,6 +102,7 @@ let nsl = ref ([||] : nslave array)
 let q1size = ref 10 and q2size = ref 10 and mqsize = ref 10
 let frame_no = ref 0
 let lose = Hashtbl.create 64 and dupf = Hashtbl.create 64
+let lose_next : (int, unit) Hashtbl.t = Hashtbl.create 4
 let saddr i = if iz !c.alen = 2 then 0x100 * (i + 1) + 11 + i else 11 + i
 let asdu_hdr = 6
 
@@ -111,7 +112,7 @@ let net_cfg line =
   v := variant_of (kvstr l "fix" "");
   balanced := kvstr l "mode" "unb" = "bal";
   c := { alen = zi (kv l "al" 1); single_ack = kv l "sc" 0 <> 0; t_ack = zi (kv l "tack" 200); t_rep = zi (kv l "trep" 1000); t_ls = zi (kv l "tls" 5000) };
-  now := kv l "t" 1000; mrx := []; frame_no := 0; Hashtbl.reset lose; Hashtbl.reset dupf;
+  now := kv l "t" 1000; mrx := []; frame_no := 0; Hashtbl.reset lose; Hashtbl.reset dupf; Hashtbl.reset lose_next;
   q1size := kv l "q1" 10; q2size := kv l "q2" 10; mqsize := kv l "mq" 10; mq := cq_init (zi !mqsize);
   let n = if !balanced then 1 else min 3 (kv l "slaves" 1) in
   let idle = kv l "idle" 100000 in
@@ -124,6 +125,8 @@ let net_cfg line =
 let deliver who f =
   incr frame_no;
   let lost = Hashtbl.mem lose !frame_no and dup = Hashtbl.mem dupf !frame_no in
+  let lost = if (not lost) && Hashtbl.mem lose_next who && List.length f > 6 && List.nth f 0 = zi 0x68 && (iz (List.nth f 4)) land 0x4f = 0x43
+             then (Hashtbl.remove lose_next who; true) else lost in
   Printf.printf "tx %s %d %s%s\n" (if who < 0 then "m" else Printf.sprintf "s%d" (who + 1)) !frame_no (hex_of_bytes f)
     (if lost then " lost" else if dup then " dup" else "");
   if not lost then
@@ -222,6 +225,7 @@ let net_cmd cmd line =
          end
      | "poll" when who >= 0 -> (match !mst with Up p -> let (p', _) = pu_request p (zi (saddr who)) false in mst := Up p' | _ -> ())
      | "flush" when who >= 0 -> let s = !nsl.(who) in s.sq1 <- cq_flush s.sq1; s.sq2 <- cq_flush s.sq2
+     | "losenext" -> Hashtbl.replace lose_next who ()
      | "mtest" when who >= 0 ->
          (match !mst with
           | Up p -> mst := Up (pu_test p (zi (saddr who)))
